@@ -625,6 +625,20 @@ func genUnifyCase(t *rapid.T) *UnifyCase {
 			ys[i] = gen.Mutate(t, ys[i], o)
 			c.Y = model.Tuple(ys...)
 		}
+		if rapid.IntRange(0, 7).Draw(t, "arity-break") == 0 {
+			// lists of different lengths, the empty one included: the pattern keeps a prefix of its
+			// components (0..n-1), bare or as the parameter list of a function type on both sides
+			k := rapid.IntRange(0, n-1).Draw(t, "keep")
+			xs := append([]*model.Type(nil), c.X.A[:k]...)
+			if rapid.Bool().Draw(t, "arity-swap") {
+				c.X, c.Y = model.Tuple(xs...), model.Tuple(c.Y.A...)
+			} else {
+				c.Y = model.Tuple(c.Y.A[:k]...) // the instance is the shorter one
+			}
+			if rapid.Bool().Draw(t, "arity-in-fun") {
+				c.X, c.Y = model.Tuple(model.Fun("f", c.X.A, model.Num)), model.Tuple(model.Fun("f", c.Y.A, model.Num))
+			}
+		}
 	case 3: // two-sided unification of related patterns
 		c.X = gen.Type(t, pat)
 		s := map[string]*model.Type{}
@@ -705,7 +719,7 @@ func enumTypes(withBot bool) []*model.Type {
 var c17bot = Register(&Prop[TypingCase]{ID: "C17", Name: "empty-container-rules-in-the-checker", Gen: genBottomTypingCase, Check: checkC05})
 
 func TestC17(t *testing.T) {
-	R.Rule = "pairs (x,y[,z]) of types over num/str/bool/time, variables a,b,c (repeated), list, map, object (permuted field orders), optional, function, argument tuple outermost; built both with fresh nodes and with shared sub-terms, parameter / tuple element lists also carved consecutively from one backing array (spare capacity = the next list), the types read back unchanged after Equals and Equals asked twice; the type returned by a successful Unify is equal in both orientations to, and unifiable with, a freshly built type of the same structure; exhaustive over all types of depth<=2/width<=2 over {num,str,'a,'b}; systems of 2-5 equations over one variable pool (chains, aliases, cycles closed through k bindings, either side, every meeting order), exhaustively for 3 variables with right sides among {a,b,c,list[a],list[b],list[c],num,{p:a,q:num},{p:b,q:num},{p:c,q:num}}; plus generated programs mutated so that an expression of the empty-container element type stands where another type is required (operands, keys, elements, arguments of named callees and of function values), decided by yae's checker as by the reference typing rules; non-trivial = repeated variable inside a container, or model-equal types with different field order, or an occurs-check pair, or shared sub-terms of depth>1"
+	R.Rule = "pairs (x,y[,z]) of types over num/str/bool/time, variables a,b,c (repeated), list, map, object (permuted field orders), optional, function, argument tuple outermost; built both with fresh nodes and with shared sub-terms, parameter / tuple element lists also carved consecutively from one backing array (spare capacity = the next list), the types read back unchanged after Equals and Equals asked twice; the type returned by a successful Unify is equal in both orientations to, and unifiable with, a freshly built type of the same structure; one pattern-against-instance pair in eight has component lists of different lengths (the empty list included), bare or as parameter lists of function types; exhaustive over all types of depth<=2/width<=2 over {num,str,'a,'b}; systems of 2-5 equations over one variable pool (chains, aliases, cycles closed through k bindings, either side, every meeting order), exhaustively for 3 variables with right sides among {a,b,c,list[a],list[b],list[c],num,{p:a,q:num},{p:b,q:num},{p:c,q:num}}; plus generated programs mutated so that an expression of the empty-container element type stands where another type is required (operands, keys, elements, arguments of named callees and of function values), decided by yae's checker as by the reference typing rules; non-trivial = repeated variable inside a container, or model-equal types with different field order, or an occurs-check pair, or shared sub-terms of depth>1"
 	R.Assume = []string{"model.Equal / refMatch (harness) define structural identity and instantiation", "⊥ only generated as container element; ⊤ not generated"}
 	reportKnown(t, "C17")
 	runRegress(t, "C17")
